@@ -282,6 +282,7 @@ package goose
 //@   ensures [nothing else is added] forall v string :: has(*seenFfis, v) && !old(has(*seenFfis, v)) ==> has(ffiMapping, pkg.PkgPath) && v == ffiMapping[pkg.PkgPath]
 //@   modifies map(*seenFfis)
 //@ func getFfi
+//@   also C06
 //@   may_panic
 //@   ensures_local [the unique FFI seen, or none] result == "none" || has(seenFfis, result)
 //@   ensures_local [two different FFIs are refused] len(seenFfis) <= 1
